@@ -640,3 +640,18 @@ def leaf_callback_wrap(check: Check, repo: Repo, rule: str = "LEAF-CALLBACK-WRAP
                          "no enclosing handler for Exception: an arbitrary exception of the user's parser escapes")
     if n < 4:
         raise AnalysisError("LEAF-CALLBACK-WRAP: leaf callbacks not found")
+
+
+def collection_shapes(check: Check, repo: Repo, rule: str = "UNTRUSTED-ATTR") -> None:
+    """Clause of UNTRUSTED-ATTR: what located_error lets through as `nodes`, GraphQLError.__init__ can take."""
+    from sa.loader import class_tests
+
+    ic = repo.func("error.located_error", "is_collection_of")
+    admitted = class_tests(ic, ic.args.args[0].arg) - {"item_type"}
+    init = repo.func("error.graphql_error", "GraphQLError.__init__")
+    handled = class_tests(init, "nodes")
+    missing = {c for c in admitted if c in ("list", "tuple", "set", "frozenset")} - handled
+    check.ob(rule, init, f"GraphQLError.__init__ normalises every collection class located_error admits for `nodes` ({sorted(admitted)})", not missing,
+             f"isinstance tests on `nodes`: {sorted(handled)}" if not missing else
+             f"located_error passes a {sorted(missing)} of nodes through, but __init__ wraps everything that is not a list as a single node: "
+             "`.loc` is then read from the collection itself (AttributeError out of execution)")
